@@ -134,8 +134,9 @@ def py_key(op):
 # ---------------------------------------------------------------------------- file chooser
 
 def tree_tok(entries):
-    """entries: list of (name, None) for a file or (name, [children]) for a directory"""
-    return "(" + ",".join(("F" + hx(n)) if c is None else ("D" + hx(n) + tree_tok(c)) for n, c in entries) + ")"
+    """entries: list of (name, None) for a file, (name, "link") for a symbolic link to a file, (name, [children]) for a directory"""
+    return "(" + ",".join(("F" + hx(n)) if c is None else (("L" + hx(n)) if c == "link" else ("D" + hx(n) + tree_tok(c)))
+                          for n, c in entries) + ")"
 
 
 def comps_tok(comps):
@@ -185,7 +186,7 @@ def rand_dir(rnd, depth, pool):
         n = rnd.choice(pool)
         if n not in used:
             used.add(n)
-            ents.append((n, None))
+            ents.append((n, "link" if rnd.random() < 0.2 else None))
     if depth > 0:
         for _ in range(rnd.choice([0, 0, 1, 1, 2, 3])):
             n = rnd.choice(DIRNAMES)
@@ -207,6 +208,11 @@ def gen_findfile(tier, rnd):
         cases.append(ff_case([("cwd", d), ("p0", other)], ["cwd"], [(["p0"], False)], "foo"))
         cases.append(ff_case([("cwd", []), ("p0", d), ("p1", other)], ["cwd"], [(["p0"], False), (["p1"], False)], "foo"))
         cases.append(ff_case([("cwd", []), ("p0", d), ("p1", other)], ["cwd"], [(["p0"], True), (["p1"], True)], "foo"))
+        # the same with the candidates linked in from a shared store (symbolic links), all of them / every other one
+        for every in (1, 2):
+            dl = [(n, "link" if (c is None and i % every == 0) else c) for i, (n, c) in enumerate(d)]
+            cases.append(ff_case([("cwd", dl), ("p0", other)], ["cwd"], [(["p0"], False)], "foo"))
+            cases.append(ff_case([("cwd", []), ("p0", dl), ("p1", other)], ["cwd"], [(["p0"], every == 2), (["p1"], False)], "foo"))
     # every single near-miss name next to / instead of a real candidate
     for n in NEAR + DIRNAMES:
         for extra in ([], ["foo@2010-01-01.yang"]):
@@ -239,6 +245,17 @@ def gen_findfile(tier, rnd):
             sub = [("sub", d[: len(d) // 2])]
             cases.append(ff_case([("cwd", []), ("p0", d[len(d) // 2:] + sub), ("p1", [(real, None)])], ["cwd"],
                                  [(["p0"], rnd.random() < 0.5), (["p1"], False)], name))
+    # two-step lookups on one Modules: the file is not there at the first FindModule and appears before the second
+    for later in (["foo.yang"], ["foo@2020-01-01.yang"], ["foo@2019-12-31.yang", "foo@2021-06-15.yang"], ["foobar.yang"]):
+        for where in ("cwd", "p0", "p1", "sub"):
+            for first in ([], ["foobar.yang"], ["foo@2020-1-01.yang"], ["foo.yang"]):
+                for dots in (False, True):
+                    a = [("cwd", []), ("p0", [(n, None) for n in first] + [("s", [])]), ("p1", [])]
+                    tgt = [(n, None) for n in later]
+                    b = [("p0", [("s", tgt)])] if where == "sub" else [(where, tgt)]
+                    cases.append("findtwice %s %s %s %s %s" % (tree_tok(a), tree_tok(b), comps_tok(["cwd"]),
+                                                               ";".join(comps_tok(c) + ("+" if d else "") for c, d in
+                                                                        [(["p0"], dots), (["p1"], False)]), hx("foo")))
     # random nested layouts
     lookups = ["foo"] * 12 + ["foobar", "fo", "foo@2020-01-01", "foo.yang", "foo@2020-01-01.yang", "zz"]
     for _ in range(2000 if tier == "quick" else 60000):
@@ -701,7 +718,8 @@ def gen_revfam(rnd):
     leg_of = rnd.choice(revs[:-1] + [None])            # the revision that includes the legacy submodule
     shared = rnd.random() < 0.6                        # every revision includes fsh (which includes fsh2)
     shape = rnd.choice(["both", "nested-only"])        # include fsh; include fsh2;  |  include fsh; (fsh2 through fsh)
-    texts, flat, expect = [], [], dict(users={}, derived={}, shared=shared, revs=revs)
+    no_latest_dev = rnd.random() < 0.4                 # only older revisions carry a deviation
+    texts, flat, expect = [], [], dict(users={}, derived={}, shared=shared, revs=revs, no_latest_dev=no_latest_dev)
     sh_body = "container sc { leaf sa { type string; } } identity SHI { base COMMON; } identity SHP { base f:COMMON; } " \
               "leaf sref { type identityref { base COMMON; } } "
     sh2_body = "container sd { leaf sb { type string; } } "
@@ -712,8 +730,9 @@ def gen_revfam(rnd):
                (("include fsh; include fsh2; " if shape == "both" else "include fsh; ") if shared else "")
         rest = '%s identity COMMON; identity ONLY%s; typedef t { type string; units "rev%s"; } ' \
                'grouping g { leaf m%s { type string; } } leaf only%s { type string; } ' \
-               'leaf dv { type string; } deviation "/f:dv" { deviate add { default "dev%s"; } } ' % (
-                   "".join("revision %s; " % x for x in reversed(older)), y, y, y, y, y)
+               'leaf dv { type string; } %s' % (
+                   "".join("revision %s; " % x for x in reversed(older)), y, y, y, y,
+                   "" if (r == revs[-1] and no_latest_dev) else 'deviation "/f:dv" { deviate add { default "dev%s"; } } ' % y)
         texts.append(("f" + y, 'module f { namespace "urn:f"; prefix f; %s%s}' % (incl, rest)))
         flat.append(("f" + y, 'module f { namespace "urn:f"; prefix f; %s%s%s}' % (
             "include fleg; " if leg_of == r else "", rest, (sh_body + sh2_body) if shared else "")))
@@ -844,11 +863,11 @@ def check_revfam(line, expect):
                     m.get("rev"), sorted(got), " or ".join(str(sorted(x)) for x in ok))
         if m["name"] == "f":
             kids = {c["name"]: c for c in m["tree"].get("children") or []}
-            own = ["dev" + m["rev"][:4]]
-            dflt = kids["dv"].get("default")
-            if (m["rev"] == expect["revs"][-1] and dflt != own) or (dflt not in (None, [], own)):
-                return "revision %s of f: leaf dv has default %s; the deviation of a revision applies to that revision " \
-                       "(the latest one's must be applied: %s)" % (m.get("rev"), dflt, own)
+            dflt = kids["dv"].get("default") or None
+            want = ["dev" + m["rev"][:4]] if (m["rev"] == expect["revs"][-1] and not expect.get("no_latest_dev")) else None
+            if dflt != want:
+                return "revision %s of f: leaf dv has default %s, expected %s: only the deviations of the latest revision of a " \
+                       "module are applied, and to that revision's tree" % (m.get("rev"), dflt, want)
         if m["name"] == "g" and expect.get("ginc"):
             kids = {c["name"]: c for c in m["tree"].get("children") or []}
             got = sorted(c["name"] for c in (kids.get("gc") or {}).get("children") or [])
@@ -928,7 +947,7 @@ def run_revfam(res, tier, rnd, stats):
 
 def _jsonable(e):
     return dict(users=e["users"], derived={r: {k: sorted(v) for k, v in d.items()} for r, d in e["derived"].items()},
-                shared=e["shared"], revs=e["revs"], augs=e.get("augs", {}), ginc=e.get("ginc"))
+                shared=e["shared"], revs=e["revs"], augs=e.get("augs", {}), ginc=e.get("ginc"), no_latest_dev=e.get("no_latest_dev"))
 
 
 # ------------------------------------------------------------------------------------ run
@@ -958,6 +977,8 @@ def judge(res, c, g, m, stats):
         if lst(go.get("f", "-"), ",") != lst(spec["sf"], ","):
             res.violation("registry lookup differs from the specification: %s impl=%s spec=%s" %
                           (c[:300], go.get("f"), spec["sf"]), dict(kind="oracle", case=c, impl=g, model=m))
+    elif t[0] == "findtwice":
+        return                      # model-vs-implementation only
     elif t[0] == "findfile":
         if not in_claim_name(t[4]):
             stats["findfile_outside_claim"] += 1
